@@ -29,7 +29,9 @@ pub fn vercmp(data: &[u8]) {
     panics::install_hook();
     let Ok(s) = std::str::from_utf8(data) else { return };
     let (a, b) = s.split_once('\n').unwrap_or((s, ""));
-    let p = crate::props::c13::C13::new(Tier::Quick);
+    // (building the property value enumerates its bounded string sets: once, not per input)
+    static P: std::sync::OnceLock<crate::props::c13::C13> = std::sync::OnceLock::new();
+    let p = P.get_or_init(|| crate::props::c13::C13::new(Tier::Quick));
     report("C13", &p.check(&crate::props::c13::C13Case::Pair(a.to_string(), b.to_string())));
 }
 
